@@ -20,6 +20,16 @@ events:
   ["prodone", rid, result]       result: ["resp", [[topic, part, err, off], ...]] | ["none"]
                                        | ["fail", [[topic, part, err, off], ...], [[topic, part, kind, wrapped], ...]]
                                        | ["err", kind]
+  ["sendraw", topic, key, msgs, variant]   `send_messages` with arguments as Python hands them over (any object in any
+                                 position; Afkak/ProducerArgs.lean).  topic: "s<len>:<idx>" a str of that length | "o" not a
+                                 str; key: "N" | "b<hex>" | "o"; msgs: "F" falsy | "U" truthy without len() | "S<e,e,..>"
+                                 sized, elements "n" None, "<size>" bytes, "o" anything else; variant picks the concrete
+                                 objects.  Refused by the validation: observation `refused <kind>`, nothing else changes;
+                                 accepted: the `send` event with the next send id.
+  ["syncnext", mode]             harness directive, not a model event: the client answers the NEXT produce request
+                                 synchronously (the Deferred it returns has already fired).  mode: "none" | "empty" |
+                                 "allok" | "allerr:<errno>" | "allfail:<kind>" | "err:<kind>".  On the model's side
+                                 the step in which the request is made is followed by `prodone rid <that result>`.
   ["stop", wipe, {"<rid>": outcome}]   outcome for a pending metadata load: ["ok"] | ["err", kind];
                                        for the pending produce: a result as above; absent: stays pending
 kinds: "b<errno>" BrokerResponseError subclass; "lu" LeaderUnavailableError; "pu" PartitionUnavailableError;
@@ -164,8 +174,42 @@ def hook_str(hook):
     return "|".join(out) or "-"
 
 
+def raw_objects(ev, sid):
+    """the Python objects of a `sendraw` event -> (topic, key, msgs)"""
+    _, topic, key, msgs, variant = ev
+    v = variant
+    if topic == "o":
+        t = [b"t0", 7, None, ("t0",)][v % 4]
+    else:
+        n, idx = topic[1:].split(":")
+        t = topic_name(int(idx)) if int(n) == 2 else "t" * int(n)
+    if key == "N":
+        k = None
+    elif key == "o":
+        k = ["k", 5, bytearray(b"k"), (b"k",)][v % 4]
+    else:
+        k = b"" if key[1:] == "-" else bytes.fromhex(key[1:])
+    if msgs == "F":
+        m = [None, [], (), "", b"", 0][v % 6]
+    elif msgs == "U":
+        m = [5, (x for x in [b"a"]), object(), 2.5][v % 4]
+    else:
+        elems = [] if msgs[1:] in ("", "-") else msgs[1:].split(",")
+        others = ["x", 7, bytearray(b"x"), 1.5]
+        if elems and all(e == "o" for e in elems) and v % 3 == 0:
+            m = "x" * len(elems)  # a str OBJECT as msgs: sized, every element a str
+        elif elems and all(e == "o" for e in elems) and v % 3 == 1:
+            m = b"\x01" * len(elems)  # a bytes OBJECT as msgs: sized, iterates to ints
+        else:
+            vals = [None if e == "n" else others[(v + i) % 4] if e == "o" else msg_value(sid, i, int(e)) for i, e in enumerate(elems)]
+            m = tuple(vals) if v % 2 else vals
+    return t, k, m
+
+
 def event_line(ev):
     op = ev[0]
+    if op == "sendraw":
+        return "sendraw %s %s %s" % (ev[1], ev[2], ev[3])
     if op == "send":
         _, sid, topic, key, msgs = ev
         k = "N" if key is None else (key or "-")
@@ -194,6 +238,17 @@ def event_line(ev):
     if op == "stop":
         raise ValueError("stop needs the pending table; use RealRun")
     raise ValueError(ev)
+
+
+class _CountingList(list):
+    """`Producer._outstanding` with a count of the Deferreds ever registered (tells a call that the argument validation
+    refused from one that was accepted and whose Deferred has fired already)"""
+
+    appended = 0
+
+    def append(self, x):
+        self.appended += 1
+        list.append(self, x)
 
 
 class RealRun(object):
@@ -227,7 +282,15 @@ class RealRun(object):
         self._stop_returned = False
         self.sent_payloads = []
         self.success_never_sent = None  # ground truth: a send Deferred succeeded although no request ever carried it
+        self.moved = {}  # step index -> sid whose own firing is observed last (see diff)
+        self.flat_lines = {}  # step index of a `sendraw` -> the `send` line it amounts to | None (refused: erased)
+        self.sync_count = 0
+        self._cur_line = self._cur_sid = self._override = None
+        self._sync_toks = {}
+        self.client.sync_answer = self._sync_answer
+        self.client.on_sync_attach = self._on_sync_attach
         self.producer = P.Producer(self.client, **kw)
+        self.producer._outstanding = _CountingList(self.producer._outstanding)
         self.init_obs = self._drain()
         self.client.reactor.after_call = self._after_timer
         self._cur = None
@@ -319,6 +382,8 @@ class RealRun(object):
             return "hookend"
         if k == "hookbadop":
             return "badop"
+        if k == "refused":
+            return "refused %s" % ob[1]
         if k == "stopreturned":
             self._stop_returned = True
             return None  # harness-only marker (ground truth for "nothing is transmitted after stop() returned")
@@ -329,9 +394,56 @@ class RealRun(object):
         del self.log[:]
         return [o for o in out if o is not None]
 
+    # ---- synchronous answers of the client (see FakeClient._answered)
+    def _sync_answer(self, p, mode):
+        tps = [(topic_index(pl.topic), pl.partition) for pl in p.args]
+        what, _, arg = mode.partition(":")
+        if what == "none":
+            res = ["none"]
+        elif what == "empty":
+            res = ["resp", []]
+        elif what == "allok":
+            res = ["resp", [[t, q, 0, 100 + 10 * p.rid + i] for i, (t, q) in enumerate(tps)]]
+        elif what == "allerr":
+            res = ["resp", [[t, q, int(arg), -1] for t, q in tps]]
+        elif what == "allfail":
+            res = ["fail", [], [[t, q, arg, True] for t, q in tps]]
+        elif what == "err":
+            res = ["err", arg]
+        else:
+            raise ValueError(mode)
+        self._sync_toks[p.rid] = res
+        box = {}
+        self._complete_produce(p.rid, res, lambda r, v: box.update(o=("fire", v)), lambda r, e: box.update(o=("fail", e)))
+        return box["o"]
+
+    def _on_sync_attach(self, rid):
+        """The Producer has made a produce request, got back a Deferred that had fired, done its bookkeeping and now
+        attaches its handlers: what it has done so far is one model step (it ends with the request), what it does from
+        here on - handling the answer - is the model's `prodone` step."""
+        if self._override is not None:
+            line, sid = self._override, None
+        elif self.log and self.log[0][0] == "timerfired":
+            tid = self.log.pop(0)[1]
+            line, sid = ("tick" if tid == "L" else "timer %d" % tid), None
+        else:
+            line, sid = self._cur_line, self._cur_sid
+        self._override = None
+        if sid is not None and sid not in [self.dmap.get(id(d), sid) for d in self.producer._outstanding]:
+            # the Deferred of the send being made has fired already (its look-up failed): the harness will see that
+            # firing only when `send_messages` has returned, but it belongs to the step that ends here
+            self._own_fired = (len(self.steps), sid)
+        self._push(line)
+        self._override = event_line(["prodone", rid, self._sync_toks[rid]])
+        self.sync_count += 1
+
     def snapshot(self):
         p = self.producer
         lp = p._sendLooper
+        if self._cur_sid is not None:
+            # inside `send_messages` (a step split there) the Deferred being created is not registered yet
+            for d in p._outstanding:
+                self.dmap.setdefault(id(d), self._cur_sid)
         return "state q=%s mc=%d bc=%d idle=%d att=%d iv=%s out=%s looper=%d" % (
             ",".join(str(self.dmap[id(r.deferred)]) for r in p._batch_reqs) or "-",
             p._waitingMsgCount, p._waitingByteCount, 1 if p._batch_send_d is None else 0, p._req_attempts,
@@ -339,6 +451,19 @@ class RealRun(object):
             1 if (lp is not None and lp.running) else 0)
 
     def _push(self, line, move_fire_of=None):
+        if self._override is not None:
+            # the stimulus was split by a synchronous answer: what is left of it is the `prodone` step
+            line, self._override = self._override, None
+            if move_fire_of is not None:
+                self.moved[len(self.steps)] = move_fire_of
+            own = getattr(self, "_own_fired", None)
+            if own is not None and own[1] == move_fire_of:
+                self._own_fired = None
+                tag = "fire %d " % move_fire_of
+                obs = self._drain()
+                self.steps[own[0]][1].extend(o for o in obs if o.startswith(tag))
+                self.steps.append((line, [o for o in obs if not o.startswith(tag)], self.snapshot()))
+                return
         obs = self._drain()
         if move_fire_of is not None:
             tag = "fire %d " % move_fire_of
@@ -348,6 +473,9 @@ class RealRun(object):
     # ---- timers fired inside one advance become sub-steps
     def _after_timer(self):
         # log holds: [("timerfired", tid), obs...] for the call that just ran
+        if self._override is not None:
+            self._push(None)
+            return
         assert self.log and self.log[0][0] == "timerfired", self.log[:2]
         tid = self.log.pop(0)[1]
         self._push("tick" if tid == "L" else "timer %d" % tid)
@@ -370,6 +498,10 @@ class RealRun(object):
             return
         op = ev[0]
         c = self.client
+        if op == "syncnext":
+            c.sync_queue.append(ev[1])
+            return
+        self._cur_line = event_line(ev) if op not in ("stop", "advance") else None
         with warnings.catch_warnings():
             warnings.simplefilter("ignore")
             if op in ("send", "sendh"):
@@ -378,6 +510,8 @@ class RealRun(object):
                 if op == "sendh":
                     d.addBoth(self._run_hook, sid, ev[5])
                 self._push(event_line(ev), move_fire_of=sid)
+            elif op == "sendraw":
+                self._send_raw(ev)
             elif op == "cancel":
                 self.deferreds[ev[1]].cancel()
                 self._push(event_line(ev))
@@ -434,11 +568,57 @@ class RealRun(object):
         vals = [msg_value(sid, i, s) for i, s in enumerate(msgs)]
         self.sends[sid] = (topic, kb, vals)
         self.next_sid += 1
-        d = self.producer.send_messages(topic_name(topic), key=kb, msgs=vals)
+        self._cur_sid = sid
+        try:
+            d = self.producer.send_messages(topic_name(topic), key=kb, msgs=vals)
+        finally:
+            self._cur_sid = None
         self.dmap[id(d)] = sid
         self.deferreds[sid] = d
         d.addCallbacks(self._fire_cb, self._fire_cb, callbackArgs=(sid, True), errbackArgs=(sid, False))
         return d
+
+    def _send_raw(self, ev):
+        """`send_messages` with raw arguments.  A call the validation refuses returns an already failed Deferred
+        (TypeError / ValueError) that was never one of `_outstanding`; anything else is a send like any other."""
+        import afkak.common as C
+        from twisted.python.failure import Failure
+
+        sid = self.next_sid
+        topic, key, msgs = raw_objects(ev, sid)
+        try:
+            vals = list(msgs)
+            self.sends[sid] = (topic_index(topic), key, vals)  # (known to `segment` should the call dispatch at once)
+        except Exception:  # noqa: BLE001
+            vals = None
+        probe = self.producer._outstanding
+        before = probe.appended
+        idx = len(self.steps)
+        self._cur_sid = sid
+        try:
+            d = self.producer.send_messages(topic, key=key, msgs=msgs)
+        finally:
+            self._cur_sid = None
+        res = getattr(d, "result", None)
+        if probe.appended == before and not (isinstance(res, Failure) and res.check(C.CancelledError)):
+            # the validation refused the call: the Deferred it returns was never one of `_outstanding`
+            # (a call refused because stop() has begun is the model's `send` event: it uses a send id)
+            self.sends.pop(sid, None)
+            self.log.append(("refused", kind_of(res.value) if isinstance(res, Failure) else "x:not-failed"))
+            d.addErrback(lambda f: None)
+            self.flat_lines[len(self.steps)] = None
+            self._push(event_line(ev))
+            return
+        # accepted: the model's `send` event with the next send id
+        self.next_sid += 1
+        self.dmap[id(d)] = sid
+        self.deferreds[sid] = d
+        d.addCallbacks(self._fire_cb, self._fire_cb, callbackArgs=(sid, True), errbackArgs=(sid, False))
+        self.flat_lines[idx] = "send %d %d %s %s" % (
+            sid, topic_index(topic), "N" if key is None else (key.hex() or "-"),
+            ",".join("n" if x is None else str(len(x)) for x in vals) or "-")
+        self.moved[idx] = sid  # (its own firing is observed late, like a `send`'s: compared apart, see diff)
+        self._push(event_line(ev), move_fire_of=sid)
 
     def _run_hook(self, _result, sid, hook):
         """the callback of a hooked send: calls back into the Producer, from wherever its Deferred fired"""
